@@ -420,3 +420,14 @@ Print Assumptions epoch_tables_discard_streams_refuted.
 Theorem epoch_sites_known : C05Epochs.epoch_sites = ConnEpochs.epoch_sites_expected.
 Proof. exact ConnEpochsP.epoch_sites_known. Qed.
 Print Assumptions epoch_sites_known.
+
+(* the table layer is conservative over the frame layer: a frame it lets through is handled by ConnRecv.frame_step with the
+   same resulting snapshot and rest of the payload; where it stops, ConnRecv.frame_step stops (QuicConnectionError / exception) *)
+Theorem epoch_layer_conservative : forall body patched s st epoch u b,
+  match ConnEpochs.eframe_step body patched s st epoch u b with
+  | ConnEpochs.ESNext _ st' rest => exists c, frame_step patched st epoch b = SNext st' rest c
+  | ConnEpochs.ESStop _ => match frame_step patched st epoch b with SNext _ _ _ => False | _ => True end
+  | ConnEpochs.ESKey _ _ => True
+  end.
+Proof. exact ConnEpochsP.eframe_step_conservative_pf. Qed.
+Print Assumptions epoch_layer_conservative.
